@@ -1,5 +1,6 @@
 """C18 — a run only reads its inputs and writes one report file (DESIGN 5/C18)."""
 from runner import Ob
+from rules import depend
 import sites as S
 from core import show
 
@@ -18,7 +19,7 @@ META = {
         "std::fs::write creates or truncates the file (std contract); not decided here",
         "dependencies (clap, toml, regex, solang_parser) perform no file-system writes (not analysed)",
     ],
-    "floors": {"R18.inventory": 8, "R18.once": 3},
+    "floors": {"R18.inventory": 8, "R18.once": 3, "R18.stale": 1},
     "trusted_base": [],
 }
 
@@ -63,6 +64,10 @@ def classify(path):
 
 def run(ctx, crate):
     obs = []
+    # a report left in the analysed tree by an earlier run is just another non-Solidity file: it is skipped and does not stop the walk (C16's filter obligations)
+    obs.append(depend.inherited(ctx, crate, "R18.stale", "analyze_dir x3", "a report left in the analysed directory is inert for the next run (C16's filter and whole-listing obligations)",
+                                "C16", lambda o: o.rule in ("R16.filter", "R16.loops", "R16.before", "R16.siblings"),
+                                example="two runs with the working directory inside the analysed tree"))
     writes = []
     inv = []
     for b in crate.bodies.values():
